@@ -101,6 +101,8 @@ struct upipe_h264f {
     struct uchain blockers;
     /** true if the pipe holds a reference on itself while urefs are buffered */
     bool buffered;
+    /** number of invocations of the Annex B parser (to detect re-entrance) */
+    unsigned int work_calls;
     /** buffered output uref (used during urequest) */
     struct uref *uref_output;
 
@@ -316,6 +318,7 @@ static struct upipe *upipe_h264f_alloc(struct upipe_mgr *mgr,
     upipe_h264f_init_output(upipe);
     upipe_h264f_init_input(upipe);
     upipe_h264f_from_upipe(upipe)->buffered = false;
+    upipe_h264f_from_upipe(upipe)->work_calls = 0;
     upipe_h264f_init_flow_format(upipe);
     upipe_h264f_init_flow_def(upipe);
     upipe_h264f_init_ubuf_mgr(upipe);
@@ -2393,6 +2396,7 @@ static bool upipe_h264f_find(struct upipe *upipe,
 static void upipe_h264f_work_annexb(struct upipe *upipe, struct upump **upump_p)
 {
     struct upipe_h264f *upipe_h264f = upipe_h264f_from_upipe(upipe);
+    unsigned int work_calls = ++upipe_h264f->work_calls;
     while (upipe_h264f->next_uref != NULL) {
         if (upipe_h264f->flow_def_requested == NULL &&
             upipe_h264f->flow_def_attr != NULL)
@@ -2405,6 +2409,14 @@ static void upipe_h264f_work_annexb(struct upipe *upipe, struct upump **upump_p)
 
         upipe_h264f->au_size -= start_size;
         upipe_h264f_end_annexb(upipe, upump_p);
+
+        /* Outputting an access unit may change the flow definition; when the
+         * provider answers the new request at once, the buffered input is
+         * handled from inside this call and this function has already run
+         * again on the same stream, starting over from this start code: the
+         * local state is stale and there is nothing left to do here. */
+        if (upipe_h264f->work_calls != work_calls)
+            return;
 
         if (upipe_h264f->flow_def_requested == NULL &&
             upipe_h264f->flow_def_attr != NULL)
